@@ -80,6 +80,11 @@ theorem histOk_unique (good : List Char → Bool) (ops : List (Op (List Char) V)
           obtain ⟨e0, he0, hp, hi, _⟩ := mem_refRetain he
           rw [hp, hi]; exact hL e0 he0) hu
         fun q hq => hg q (by simpa [insertedPats'] using hq)⟩
+    | modify p g =>
+      exact ⟨rfl, ih _ (fun e he => by
+          obtain ⟨e0, he0, hp, hi⟩ := mem_refModify he
+          rw [hp, hi]; exact hL e0 he0) hu
+        fun q hq => hg q (by simpa [insertedPats'] using hq)⟩
     | cache limit level =>
       exact ⟨rfl, ih _ hL hu fun q hq => hg q (by simpa [insertedPats'] using hq)⟩
 
@@ -103,6 +108,10 @@ theorem refRun_unique (ops : List (Op (List Char) V)) :
     | retain f =>
       exact ih _ (fun e he => by
         obtain ⟨e0, he0, hp, hi, _⟩ := mem_refRetain he
+        rw [hp, hi]; exact hL e0 he0) hu
+    | modify p g =>
+      exact ih _ (fun e he => by
+        obtain ⟨e0, he0, hp, hi⟩ := mem_refModify he
         rw [hp, hi]; exact hL e0 he0) hu
     | cache limit level => exact ih _ hL hu
 
